@@ -149,11 +149,18 @@ func sanitizationContextForAttrVal(element, attr, linkRel string) (sanitizationC
 	if element == "link" && attr == "href" {
 		// Special case: safehtml.URL values are allowed in a link element's href attribute if that element's
 		// rel attribute possesses certain values.
+		// All rel values must be URL-compatible: a single other value (e.g. "stylesheet" in
+		// rel="alternate stylesheet") makes the browser load the href as a resource.
 		relVals := strings.Fields(linkRel)
+		allURLRelVals := len(relVals) > 0
 		for _, val := range relVals {
-			if urlLinkRelVals[val] {
-				return sanitizationContextTrustedResourceURLOrURL, nil
+			if !urlLinkRelVals[val] {
+				allURLRelVals = false
+				break
 			}
+		}
+		if allURLRelVals {
+			return sanitizationContextTrustedResourceURLOrURL, nil
 		}
 	}
 	if dataAttributeNamePattern.MatchString(attr) {
